@@ -6,7 +6,7 @@ open AfqmcVerif.Machine
 
 def m__step_scan : Prog := (Prog.op Op.propagate)
 def m__step_scan_free : Prog := (Prog.op (Op.clobber "propagate_free"))
-def m__block_scan : Prog := (Prog.seq (Prog.op (Op.other "set:key")) (Prog.seq (Prog.scan "n_prop_steps" m__step_scan) (Prog.seq (Prog.op (Op.other "set:n_killed_walkers")) (Prog.seq (Prog.op Op.qr) (Prog.seq (Prog.op Op.measure) (Prog.op (Op.other "set:pop_control_ene_shift")))))))
+def m__block_scan : Prog := (Prog.seq (Prog.op (Op.other "set:key")) (Prog.seq (Prog.scan "n_prop_steps" m__step_scan) (Prog.seq (Prog.op (Op.other "set:n_killed_walkers")) (Prog.seq (Prog.op Op.qr) (Prog.seq (Prog.op Op.refresh) (Prog.seq (Prog.op Op.measure) (Prog.op (Op.other "set:pop_control_ene_shift"))))))))
 def m__block_scan_free : Prog := (Prog.seq (Prog.op (Op.other "set:key")) (Prog.seq (Prog.scan "n_prop_steps" m__step_scan_free) (Prog.op Op.measure)))
 def m__sr_block_scan : Prog := (Prog.seq (Prog.scan "n_ene_blocks" m__block_scan) (Prog.seq (Prog.op Op.srLocal) (Prog.op Op.refresh)))
 def m__ad_block : Prog := (Prog.seq (Prog.op Op.refresh) (Prog.seq (Prog.op (Op.other "set:n_killed_walkers")) (Prog.seq (Prog.op (Op.other "set:pop_control_ene_shift")) (Prog.seq (Prog.scan "n_sr_blocks" m__sr_block_scan) (Prog.op (Op.other "set:n_killed_walkers"))))))
